@@ -24,6 +24,7 @@ class Variant:
     name: str
     style: str  # 'named' | 'tuple' | 'unit'
     fields: List[Tuple[str, str]]  # (name or index, type expression)
+    disc: Optional[str] = None  # explicit discriminant of a unit variant
 
 
 @dataclass
@@ -101,7 +102,7 @@ class Def:
         vs = []
         for v in self.variants:
             if v.style == "unit":
-                vs.append(v.name)
+                vs.append(v.name + (f" = {v.disc}" if v.disc else ""))
             elif v.style == "tuple":
                 vs.append(f"{v.name}(" + ", ".join(t for _, t in v.fields) + ")")
             else:
@@ -290,6 +291,8 @@ def curated():
         S("ZN", [("p", "P1"), ("t", "T3"), ("f", "f64"), ("arr", "[u16; 3]"), ("ph", "PhantomData<u8>")], ZC),
         E("EZ", [V("A", "unit", []), V("B", "tuple", [("0", "u16")]), V("C", "named", [("x", "u8"), ("y", "u64")])], ZC),
         E("EU", [V("North", "unit", []), V("South", "unit", []), V("East", "unit", [])], ZC),
+        E("ED", [V("Low", "unit", [], "1"), V("Mid", "unit", [], "2"), V("High", "unit", [], "4")]),
+        E("EDZ", [V("Low", "unit", [], "1"), V("Mid", "unit", [], "2"), V("High", "unit", [], "4")], ZC),
         S("D1", [("id", "u32"), ("name", "String"), ("data", "Vec<u16>")]),
         S("D1Z", [("data", "[u8; 4]")], ("deep_copy",)),
         S("DN", [("0", "P1")], ("deep_copy",), style="tuple"),
